@@ -1,5 +1,6 @@
 import Gonuts.Model.Sexp
 import Gonuts.Model.Mint
+import Gonuts.Model.MintConc
 /-!
   Driver glue for the stateful `mint.*` commands: parse an op line into `Mint.Op`, run
   `Mint.applyOp` on the session, render `(outcome (storage-trace…) (lightning-calls…))` exactly as
@@ -115,7 +116,9 @@ def op? (cmd : String) (args : List Sexp) : Option Op :=
       | .list [.atom "mpp", m] => do some (some (← u64? m))
       | _ => none)
     some (.meltQuote inv ((← unit.asStr?) == "sat") mpp)
-  | "mint.melt", [q, ps, script] => do some (.melt (← int? q) (← listOf? proof? ps) (← listOf? ans? script))
+  | "mint.melt", [q, ps, script] => do some (.melt (← int? q) (← listOf? proof? ps) (← listOf? ans? script) false)
+  | "mint.melt", [q, ps, script, lnFail] => do
+    some (.melt (← int? q) (← listOf? proof? ps) (← listOf? ans? script) (← lnFail.asBool?))
   | "mint.meltstate", [q, script] => do some (.meltState (← int? q) (← listOf? ans? script))
   | "mint.checkstate", [ys, script] => do some (.checkState (← listOf? yref? ys) (← listOf? ans? script))
   | "mint.restore", [bs] => do some (.restore (← listOf? Sexp.asNat? bs))
@@ -186,5 +189,48 @@ def handle (s : Sess) (cmd : String) (args : List Sexp) : Option (Sess × Sexp) 
         | .restart .. => []
         | _ => s1.w.trace
       some (s1, l [resSx op r, l (trace.map a), l (calls.map callSx)])
+
+
+/-! Interleaved / interrupted execution (`Model/MintConc.lean`). -/
+
+def nextSx (c : CSess) (tid : Nat) : Sexp :=
+  match c.threads.find? (·.1 == tid) with
+  | none => l [a "no-thread"]
+  | some (_, .ret r) =>
+    match c.ops.find? (·.1 == tid) with
+    | some (_, op) => l [a "done", resSx op r.1]
+    | none => l [a "done"]
+  | some (_, .eff e _) => l [a "next", a e.gateLabel]
+
+def handleC (c : CSess) (cmd : String) (args : List Sexp) : Option (CSess × Sexp) :=
+  match cmd, args with
+  | "mint.spawn", [tid, .list (.atom ocmd :: oargs)] =>
+    match tid.asNat?, op? ocmd oargs with
+    | some tid, some op =>
+      match spawn c tid op with
+      | some c' => some (c', l [a "spawned", nextSx c' tid])
+      | none => some (c, l [a "no-thread"])
+    | _, _ => none
+  | "mint.step", [tid, fault] =>
+    match tid.asNat?, fault.asBool? with
+    | some tid, some f =>
+      match stepThread c tid f with
+      | (c', some lb) => some (c', l [a "did", a lb, nextSx c' tid])
+      | (c', none) => some (c', l [a "no-step"])
+    | _, _ => none
+  | "mint.crash", [] => some (crashAll c, l [a (if loadOk c.s.w.db then "ok" else "load-panic")])
+  | "mint.reap", [] => some ({ c with threads := [], ops := [] }, l [a "ok"])
+  | "mint.cscript", [xs] =>
+    match listOf? ans? xs with
+    | some sc =>
+      some ({ c with s := { c.s with w := { c.s.w with ln := { c.s.w.ln with script := sc, calls := [] }, trace := [] } } }, l [a "ok"])
+    | none => none
+  | "mint.ccalls", [] =>
+    some ({ c with s := { c.s with w := { c.s.w with ln := { c.s.w.ln with calls := [] }, trace := [] } } },
+          l [l (c.s.w.trace.map a), l (c.s.w.ln.calls.map callSx)])
+  | _, _ =>
+    match handle c.s cmd args with
+    | some (s', out) => some ({ c with s := s' }, out)
+    | none => none
 
 end Gonuts.Model.MintDriver
